@@ -26,12 +26,19 @@ echo "== suite with change" >> "$log"
 cargo test --workspace --no-fail-fast --offline 2>&1 | grep -E "^test result|FAILED|panicked|error(\[|:)" >> "$log"
 suite=$(grep -m1 "^test result" "$log")
 cp "$demo" sentinel-core/tests/
+flags="--cfg sentinel_verif"; feat=""; : > "$log.demo_with"; : > "$log.demo_without"
+grep -q "sentinel_verif_sched" "$demo" && flags="$flags --cfg sentinel_verif_sched"
+grep -q "metric_log\|log::metric" "$demo" && feat="--features metric_log"
+grep -q "datasource\|rule_json_array_parser" "$demo" && feat="--features ds_consul"
+export CARGO_TARGET_DIR="$wt/target-demo"
+echo "demo build: RUSTFLAGS='$flags' $feat" >> "$log"
 echo "== demo with change (expect failure)" >> "$log"
-RUSTFLAGS="--cfg sentinel_verif" timeout 1200 cargo test -p sentinel-core --offline --test "$demoname" >> "$log.demo_with" 2>&1; rc_with=$?
+RUSTFLAGS="$flags" timeout 2400 cargo test -p sentinel-core --offline $feat --test "$demoname" >> "$log.demo_with" 2>&1; rc_with=$?
 tail -5 "$log.demo_with" >> "$log"
 git checkout -- sentinel-core/src middleware sentinel-macros 2>/dev/null
 echo "== demo without change (expect pass)" >> "$log"
-RUSTFLAGS="--cfg sentinel_verif" timeout 1200 cargo test -p sentinel-core --offline --test "$demoname" >> "$log.demo_without" 2>&1; rc_without=$?
+RUSTFLAGS="$flags" timeout 2400 cargo test -p sentinel-core --offline $feat --test "$demoname" >> "$log.demo_without" 2>&1; rc_without=$?
+unset CARGO_TARGET_DIR
 tail -5 "$log.demo_without" >> "$log"
 echo "RESULT suite='$suite' demo_with_rc=$rc_with demo_without_rc=$rc_without" | tee -a "$log"
 cd /; git -C /repo worktree remove --force "$wt"; rm -rf "$wt"
